@@ -272,7 +272,7 @@ def validate(recs, events, math_file=None, batch=400):
         if len(done) != len(chunk):
             raise common.MachineryError("trace validation finished %d of %d cases" % (len(done), len(chunk)))
         for s in done:
-            summaries[s[1]] = {"judged": s[2], "skipped": s[3]}
+            summaries[s[1]] = {"judged": s[2], "skipped": s[3], "nfault": s[4], "nrow": s[5]}
         states += res.distinct
         trans += res.generated
     validate.expected = expected
